@@ -271,12 +271,13 @@ Definition raw_scan (sql : la) (args : list argr) : pieces :=
   if contains_c "@" sql then named_scan (all_names args) sql args false [] false
   else expr_scan false sql args false.
 
-(* a value of Statement.Vars given back to Expr.Build (sub-query renumbering path) *)
+(* what Expr.Build / NamedExpr.Build write for a scalar argument right after '(' (also: a value of
+   Statement.Vars given back to Expr.Build on the sub-query renumbering path) *)
 Definition scalar_par (s : scalar) : pieces :=
   match s with
   | SBytes b => match s2l b with
-                | [] => [PV SNull]
-                | bs => sepc [PC ","] (map (fun c => [PV (SInt (Z.of_N (ccode c)))]) bs)
+                | [] => [PV SNull]          (* rv.Len() == 0: AddVar(nil) *)
+                | _ => [PV s]               (* a []byte is one value, not a list *)
                 end
   | _ => [PV s]
   end.
